@@ -459,7 +459,7 @@ func (ck *checker) check(op string, p jpref.Path, d0 any, enum bool, modKind str
 	}
 	switch op {
 	case "Del", "Remove", "Modify":
-		if !eq(want, result) && op == "Remove" && hasFilter(p) {
+		if !eq(want, result) && (op == "Remove" || op == "Del") && hasFilter(p) {
 			// removing below a node can make a filter select that node afterwards (evaluation and mutation
 			// are interleaved): the states reached by re-applying the removal are accepted too
 			w := want
@@ -469,7 +469,11 @@ func (ck *checker) check(op string, p jpref.Path, d0 any, enum bool, modKind str
 					ls[locKey(r.Loc)] = true
 				}
 				o, _ := outermost(ls)
-				w = refRemove(w, nil, o)
+				if op == "Remove" {
+					w = refRemove(w, nil, o)
+				} else {
+					w = refDel(w, nil, o)
+				}
 			}
 			if eq(w, result) {
 				c.Cover("accepted:remove-reapplied-after-filter-change")
